@@ -34,6 +34,12 @@ def strat_step(draw, tier):
     comp = draw(gen.composition_s(space, has_beacon='Beacon' in unique, unique_pool=unique))
     need_valid = any(r['name'] == 'getting_closer_shortest_path' for r in comp['rewards'])
     state = draw(gen.state_s(space, max_hw=7 if tier == 'quick' else 9, valid=need_valid or draw(st.booleans()), unique=tuple(unique)))
+    if draw(st.integers(0, 7)) == 0:
+        # the view that covers the grid exactly (agent at the bottom centre facing forward)
+        h, w = M.shape(state)
+        if w % 2 == 1 and not M.blocks_movement(state['grid'][h - 1][w // 2]) and M.obj_type(state['grid'][h - 1][w // 2]) not in unique:
+            comp['view'] = [h, w]
+            state['agent'][0], state['agent'][1], state['agent'][2] = h - 1, w // 2, 'F'
     if draw(st.integers(0, 3)) == 0:
         comp['actions'] = draw(st.lists(st.sampled_from(ACTIONS), min_size=1, unique=True))
     return {'space': space, 'state': state, 'action': draw(gen.action_s), 'comp': comp,
@@ -110,6 +116,12 @@ def oracle_step(case, ctx):
                 ctx.fail(f'observation of {nm} not in observation space (model)', {'kind': 'obs_closure'})
             if not env.observation_space.contains(o):
                 ctx.fail(f'observation_space.contains rejects observation of {nm}', {'kind': 'obs_closure'})
+        # observing must leave the states inside the state space (a step from them must still be possible)
+        for nm, st_, d in (('state', s, sd), ('next state', ns, nd)):
+            after = objs.canon_state(st_)
+            if after != d or not M.state_in_space(after, shape, space['types']) or not env.state_space.contains(st_):
+                ctx.fail(f'after computing its observation ({comp["obs"]}, view {comp["view"]}) the {nm} is no longer the same member of the state space', {'kind': 'closure'})
+        guarded(ctx, 'functional_step after the observations', env.functional_step, s, objs.action(a))
     finally:
         reset_gv_debug(None)
     # classes
@@ -133,13 +145,15 @@ def oracle_step(case, ctx):
     if ps is not None and not ps:
         classes.append('on_unpaired_telepod')
     classes.append('debug' if case['debug'] else 'nodebug')
+    if list(comp['view']) == list(shape) and sd['agent'][:3] == [h - 1, w // 2, 'F']:
+        classes.append('view==grid')
     ctx.ev.case(case, nt=(nd != sd or 'edge_outward' in classes or special), classes=classes,
                 key=[sd, a, comp['chain'], [r['name'] for r in comp['rewards']], comp['term']['name'], comp['obs']])
 
 
 # ------------------------------------------------------------------ (b) membership predicates
 
-STATE_ASPECTS = ['none', 'add_row', 'add_col', 'drop_row', 'undeclared_type', 'agent_y-1', 'agent_x-1', 'agent_y=h', 'agent_x=w', 'agent_far', 'held_undeclared']
+STATE_ASPECTS = ['none', 'add_row', 'add_col', 'drop_row', 'undeclared_type', 'none_object_cell', 'hidden_object_cell', 'held_hidden', 'agent_y-1', 'agent_x-1', 'agent_y=h', 'agent_x=w', 'agent_far', 'held_undeclared']
 OBS_ASPECTS = ['none', 'add_row', 'add_2cols', 'drop_row', 'undeclared_type', 'undeclared_color', 'agent_y-1', 'agent_x-1', 'agent_y=h', 'agent_x=w', 'held_undeclared_type', 'held_undeclared_color', 'hidden_cell']
 
 
@@ -215,6 +229,12 @@ def _mutate(case):
             d['grid'][y][x] = o
     elif aspect == 'hidden_cell':
         d['grid'][y][x] = 'H'
+    elif aspect == 'none_object_cell':
+        d['grid'][y][x] = '_'      # "no object" is what an empty hand holds; it is not a declared grid object
+    elif aspect == 'hidden_object_cell':
+        d['grid'][y][x] = 'H'      # Hidden belongs to observations only
+    elif aspect == 'held_hidden':
+        d['agent'][3] = 'H'
     elif aspect == 'agent_y-1':
         d['agent'][0] = -1
     elif aspect == 'agent_x-1':
@@ -356,7 +376,7 @@ def _hist_one(case, ctx):
 CHECKS = [
     Check('step_closure', oracle_step, strategy=strat_step, examples={'quick': 1500, 'thorough': 5000},
           rule='space x member state (1x1..7x7, 9x9 thorough) x action x composition (chain of 1-7 transitions, 1-4 rewards, termination, observation function, view) x seed x debug flag',
-          required=['edge_outward', 'changed', 'rejected_action', 'on_unpaired_telepod', 'debug', 'nodebug']),
+          required=['edge_outward', 'changed', 'rejected_action', 'on_unpaired_telepod', 'debug', 'nodebug', 'view==grid']),
     Check('space_membership', oracle_member, strategy=strat_member, examples={'quick': 1500, 'thorough': 5000},
           rule='conforming members and single-aspect non-members of state/observation spaces; contains() must equal the model predicate (both directions); non-trivial = a mutation aspect was applied',
           required=['member', 'non-member']),
